@@ -284,6 +284,9 @@ def idxTagValues (shs : List Shard) (m k : Bytes) : List Bytes :=
 
 inductive Cond where
   | cmp (key : Bytes) (neq : Bool) (val : Bytes)
+  /-- `key =~ /^(?:v1|v2|…)$/` (`neg = false`) or `key !~ …`: a regular expression that matches
+      exactly the listed values (Go's `regexp` itself is not modelled) -/
+  | re (key : Bytes) (neg : Bool) (vals : List Bytes)
   | and (l r : Cond)
   | or (l r : Cond)
 deriving Repr
@@ -293,6 +296,7 @@ def nameKey : Bytes := [95, 110, 97, 109, 101]                 -- "_name"
 /-- only `_name` comparisons -/
 def nameOnly : Cond → Bool
   | .cmp k _ _ => k = nameKey
+  | .re k _ _ => k = nameKey
   | .and l r => nameOnly l && nameOnly r
   | .or l r => nameOnly l && nameOnly r
 
@@ -300,27 +304,38 @@ def nameOnly : Cond → Bool
     `tag = 'non-empty'`, OR, and AND with a `_name`-only side -/
 def condOK : Cond → Bool
   | .cmp k neq v => k = nameKey || (!neq && v ≠ [])
+  | .re k neg vals => k = nameKey || (!neg && !vals.contains [])
   | .and l r => condOK l && condOK r && (nameOnly l || nameOnly r)
   | .or l r => condOK l && condOK r
 
-/-- `measurementNamesByNameFilter` -/
-def namesByNameFilter (a : Auth) (shs : List Shard) (neq : Bool) (val : Bytes) : List Bytes :=
-  (measNames shs).filter fun m => (if neq then m ≠ val else m = val) && measAuthorized a shs m
+/-- `measurementNamesByNameFilter` (`mtch` = the name comparison: `string(e) == val` or
+    `regex.Match(e)`; `neq` = the negated operator) -/
+def namesByNameFilter (a : Auth) (shs : List Shard) (neq : Bool) (mtch : Bytes → Bool) : List Bytes :=
+  (measNames shs).filter fun m => (mtch m != neq) && measAuthorized a shs m
 
-/-- `measurementNamesByTagFilter` (EQ / NEQ with a string) -/
-def namesByTagFilter (a : Auth) (shs : List Shard) (neq : Bool) (key val : Bytes) : List Bytes :=
+/-- `measurementNamesByTagFilter` (`mtch` = `valEqual`: equality with the literal, or
+    `regex.Match`).  The tag values of the measurement are scanned in sorted order; every matching
+    value sets `tagMatch`; with a non-open authorizer the scan goes on until a matching value
+    with an authorized live series is found (`if tagMatch && authorized { break }`). -/
+def namesByTagFilter (a : Auth) (shs : List Shard) (neq : Bool) (key : Bytes) (mtch : Bytes → Bool) :
+    List Bytes :=
   (measNames shs).filter fun m =>
     if !(idxTagKeys shs m).contains key then false else
-    let tagMatch := (idxTagValues shs m key).contains val
+    let matching := (idxTagValues shs m key).filter mtch
+    let tagMatch := !matching.isEmpty
     let authorized0 := a.isOpen ||
-      (tagMatch && (liveSeries shs m).any fun s => tagGet s.tags key = some val && a.allows s.name s.tags)
+      matching.any fun v => (liveSeries shs m).any fun s => tagGet s.tags key = some v && a.allows s.name s.tags
     let authorized := if neq && !tagMatch then measAuthorized a shs m else authorized0
     (tagMatch == !neq) && authorized
 
 /-- `measurementNamesByExpr` -/
 def namesByExpr (a : Auth) (shs : List Shard) : Cond → List Bytes
   | .cmp key neq val =>
-    if key = nameKey then namesByNameFilter a shs neq val else namesByTagFilter a shs neq key val
+    if key = nameKey then namesByNameFilter a shs neq (fun m => m = val)
+    else namesByTagFilter a shs neq key (fun v => v = val)
+  | .re key neg vals =>
+    if key = nameKey then namesByNameFilter a shs neg (fun m => vals.contains m)
+    else namesByTagFilter a shs neg key (fun v => vals.contains v)
   | .and l r => interSorted (namesByExpr a shs l) (namesByExpr a shs r)
   | .or l r => unionSorted (namesByExpr a shs l) (namesByExpr a shs r)
 
@@ -335,6 +350,7 @@ def evalFilter (tags : Tags) : Cond → Bool
   | .cmp key neq val =>
     let v := (tagGet tags key).getD []
     if neq then v ≠ val else v = val
+  | .re key neg vals => vals.contains ((tagGet tags key).getD []) != neg
   | .and l r => evalFilter tags l && evalFilter tags r
   | .or l r => evalFilter tags l || evalFilter tags r
 
@@ -356,7 +372,7 @@ def selectedKeys (shs : List Shard) (m : Bytes) (kc : Option (Bool × Bytes)) : 
 def walkNames (shs : List Shard) (nc : Option (Bool × Bytes)) : List Bytes :=
   match nc with
   | none => measNames shs
-  | some (neq, val) => namesByNameFilter .nil_ shs neq val
+  | some (neq, val) => namesByNameFilter .nil_ shs neq (fun m => m = val)
 
 /-- `Store.TagKeys` -/
 def tagKeys (a : Auth) (shs : List Shard) (nc kc : Option (Bool × Bytes)) (f : Option Cond) :
